@@ -1,6 +1,7 @@
 package rules
 
 import (
+	"regexp"
 	"go/token"
 	"go/types"
 	"strings"
@@ -229,7 +230,8 @@ func checkC16(c *Ctx) {
 			norm := strings.NewReplacer("param", "IDX", "bytes", "IDX").Replace(kinds)
 			switch {
 			case op.IsIter():
-				r.Check(norm == "0x04|chain|IDX", "C16.key-schema", "reader:"+fname(f), c.pos(op.Site), "signature reader iterates prefix|chain|index", "signature reader iterates "+kinds+", expected prefix|chain|index")
+				okIdx := norm == "0x04|chain|IDX" || regexp.MustCompile(`^0x04\|chain\|0x[0-9a-f]{2}\|chain\|(u64|str\|u64|IDX|str\|IDX)$`).MatchString(norm)
+				r.Check(okIdx, "C16.key-schema", "reader:"+fname(f), c.pos(op.Site), "signature reader iterates prefix|chain|index", "signature reader iterates "+kinds+", expected prefix|chain|index")
 			default:
 				okParts := norm == "0x04|chain|IDX|addr"
 				detail := ""
@@ -494,6 +496,66 @@ func (c *Ctx) checkAttribution(rule string) {
 			}
 			r.Check(okSigner && okSig, rule, fname(q), p.Pos(an.Pos()), "ExternalSigner = GetValidatorExternalAddress(chain, iterated validator), Signature = iterated value",
 				"the confirmations query does not attribute each signature to the external address of the validator it is stored under: "+detail)
+		}
+		if !found {
+			// the iteration written in place: an iterator over the signatures in the query itself
+			for _, op := range p.StoreOps(q) {
+				if !op.IsIter() || c.prefixName(op) != "ExternalSignatureKey" {
+					continue
+				}
+				iterVal, _ := op.Site.(ssa.Value)
+				if iterVal == nil {
+					continue
+				}
+				found = true
+				var keyCalls, valCalls []ssa.Value
+				ana.Instrs(q, func(in ssa.Instruction) {
+					if call, ok := in.(*ssa.Call); ok && call.Call.IsInvoke() && call.Call.Value == iterVal {
+						switch call.Call.Method.Name() {
+						case "Key":
+							keyCalls = append(keyCalls, call)
+						case "Value":
+							valCalls = append(valCalls, call)
+						}
+					}
+				})
+				okSigner, okSig := false, false
+				for _, a := range allocsIn(q) {
+					n := ana.NamedOf(a.Type())
+					if n == nil || !strings.HasSuffix(n.Obj().Name(), "Confirmation") {
+						continue
+					}
+					fs := ana.FieldStores(a)
+					for _, v := range fs["ExternalSigner"] {
+						l := p.Leaves(v, ana.PVOpt{Opaque: func(d ana.CalleeDesc) bool { return d.Name == "GetValidatorExternalAddress" }})
+						for lab, vals := range l.Vals {
+							if !strings.HasSuffix(lab, "GetValidatorExternalAddress") {
+								continue
+							}
+							for _, x := range vals {
+								if cc := ana.CallOf(x); cc != nil {
+									for _, arg := range cc.Args {
+										for _, kc := range keyCalls {
+											if operandReaches(arg, kc, 6) {
+												okSigner = true
+											}
+										}
+									}
+								}
+							}
+						}
+					}
+					for _, v := range fs["Signature"] {
+						for _, vc := range valCalls {
+							if operandReaches(v, vc, 6) {
+								okSig = true
+							}
+						}
+					}
+				}
+				r.Check(okSigner && okSig, rule, fname(q), c.pos(op.Site), "ExternalSigner = GetValidatorExternalAddress(chain, iterated validator), Signature = iterated value",
+					"the confirmations query does not attribute each signature to the external address of the validator it is stored under (explicit iterator form)")
+			}
 		}
 		if !found {
 			r.Undecided(rule, fname(q), p.Pos(q.Pos()), "no signature-iteration callback found")
